@@ -1,6 +1,7 @@
 package main
 
 import (
+	"math"
 	"fmt"
 
 	clip "github.com/bolom009/go-clipper2"
@@ -165,6 +166,34 @@ func cmdC13(r *RNG, n int, e *Emitter, args []string) {
 				s, c = bs, bc
 				meta["subject"], meta["clip"] = pathsJSON(s), pathsJSON(c)
 				e.Count("scale-near-touch")
+			}
+			if r.Intn(4) == 0 {
+				// PointInPolygon on a many-vertex polygon whose edges stay below 2^31 while its extent exceeds 2^33: the
+				// answer for (k q, k P) must be the answer for (q, P).  Flat-topped (the closing edge is horizontal), so that
+				// the routine's unguarded closing-edge product is not what is being measured.
+				n := 64 + 2*r.Intn(97)
+				R := float64(r.Range(800, 2000))
+				pp := make(clip.Path64, n)
+				for j := range pp {
+					a := -math.Pi/2 + (float64(j)+0.5)*2*math.Pi/float64(n)
+					rad := R * (1 + 0.02*(r.Float()-0.5))
+					if j == 0 || j == n-1 {
+						rad = R
+					}
+					pp[j] = clip.Point64{X: int64(math.Round(rad * math.Cos(a))), Y: int64(math.Round(rad * math.Sin(a)))}
+				}
+				pp[n-1].Y = pp[0].Y
+				kp := int64(1) << 24
+				sp := scalePaths(clip.Paths64{pp}, kp)[0]
+				for t := 0; t < 40; t++ {
+					q := clip.Point64{X: r.Range(-int64(R)-50, int64(R)+50), Y: r.Range(-int64(R)-50, int64(R)+50)}
+					a, b := clip.PointInPolygon(q, pp), clip.PointInPolygon(clip.Point64{X: q.X * kp, Y: q.Y * kp}, sp)
+					if a != b {
+						e.Fail(map[string]any{"kind": fmt.Sprintf("PointInPolygon changes under scaling by 2^24 (%d-gon, edges below 2^31, extent above 2^33): %v vs %v", n, a, b), "path": pathJSON(pp), "q": []int64{q.X, q.Y}, "k": kp})
+						break
+					}
+				}
+				e.Count("pip-scaled-many-vertex")
 			}
 			var out clip.Paths64
 			perr := safeCall(func() { out = clip.BooleanOpPaths64(ct, ks, kc, fr) })
